@@ -436,17 +436,22 @@ def sequent_value(th, points):
     for h in list(th.hyps) + [th.prop]:
         fv.update(arith.free_vars(h))
     envs = points(sorted(fv)) if fv else [None]
-    unknown = False
+    n_true = n_unknown = 0
     for env in envs:
         hv = [arith.eval_prop(h, env) for h in th.hyps]
         if any(v is False for v in hv):
+            n_true += 1
             continue
         c = arith.eval_prop(th.prop, env)
         if c is False and all(v is True for v in hv):
             return False, env
-        if c is not True:
-            unknown = True
-    return (None if unknown else True), None
+        if c is True:
+            n_true += 1
+        else:
+            n_unknown += 1
+    if fv:      # open sequent: "true at every point where it could be evaluated" (at least a third of the points)
+        return (True if n_true * 3 >= len(envs) else None), None
+    return (None if n_unknown else True), None
 
 
 # ---------------------------------------------------------------------------------------------- features
@@ -574,9 +579,13 @@ def run_case(case, H):
     if verdict is False:
         cause = root_cause(macro, case['goal'], goalT, feats, asserted)
         at = '' if not env else ' at ' + ', '.join('%s=%s' % kv for kv in sorted(env.items()))
+        try:
+            shown = str(th)
+        except Exception:       # holpy's printer re-infers types and can fail on terms the checker accepted
+            shown = repr(th)
         H.violation('%s:false-asserted:%s' % (macro, cause), case,
                     'check_proof accepted a one-step proof by %s and returned  %s  which is FALSE%s '
-                    '(goal type %s, macro written for %s)' % (macro, th, at, goalT, MACROS[macro]['ty']))
+                    '(goal type %s, macro written for %s)' % (macro, shown, at, goalT, MACROS[macro]['ty']))
         klass.append('!false-asserted')
     elif verdict is None:
         H.inconc('oracle-unknown:' + macro)
@@ -661,7 +670,7 @@ def alt_value(e, trunc, conf=None):
             a = rec(e[1])
             return None if a is None else (a if conf == 'suc->id' else a + 1)
         if tag in ('pow', 'rpow'):
-            a, b = rec(e[1]), rec(e[2], True if tag == 'pow' else trunc)
+            a, b = rec(e[1]), rec(e[2])
             if a is None or b is None or b.denominator != 1 or abs(b) > 12:
                 return None
             if conf == 'pow->times':
@@ -670,9 +679,9 @@ def alt_value(e, trunc, conf=None):
                 return Fraction(0) if a == 0 else (1 / a) ** int(-b)
             return a ** int(b)
         if tag == 'of_nat':
-            return rec(e[2], True)
+            return rec(e[2])
         if tag == 'of_int':
-            return rec(e[1], False)
+            return rec(e[1])
     except (ZeroDivisionError, OverflowError, ValueError):
         return None
     return None
@@ -876,6 +885,14 @@ def strategies():
             den = draw(st.sampled_from([_num('real', 0), ['var', 'real', 'y'], ['minus', _num('real', 2), _num('real', 2)],
                                         ['plus', ['var', 'real', 'x'], _num('real', 1)]]))
             return ['div', draw(poly_expr(min(depth, 1))), den]
+        if k in (3, 4, 5):
+            # of_nat of a ground natural-number expression (truncated subtraction inside a real polynomial)
+            a, b = draw(expr('nat', ('plus', 'minus', 'times'), 1)), draw(expr('nat', ('plus', 'minus', 'times'), 1))
+            inner = ['minus', a, b] if k != 4 else draw(expr('nat', ('plus', 'minus', 'times', 'suc'), 2))
+            e = ['of_nat', 'real', inner]
+            if draw(st.booleans()):
+                e = [draw(st.sampled_from(['plus', 'times', 'minus'])), draw(poly_expr(min(depth, 1))), e]
+            return e
         e = draw(expr('real', POLY_OPS, depth, VARS))
         return e
 
@@ -893,6 +910,12 @@ def strategies():
             return e
         budget[0] -= 1
         k = draw(st2.integers(0, 5))
+        if "'var'" not in str(e) and draw(st2.integers(0, 3)) == 0:
+            # constant folding: a ground subterm against its value (exact values only)
+            v = value_of(e)
+            Te = build_type(e)
+            if isinstance(v, Fraction) and Te is not None and _clamp(Te, v) == v:
+                return _num(Te, v)
         if tag in ('plus', 'times'):
             a, b = rearrange(draw, e[1], budget), rearrange(draw, e[2], budget)
             if k == 0:
@@ -957,8 +980,9 @@ def strategies():
         except CaseInvalid:
             return None
 
-    def perturb(draw, e):
-        """Change one numeral (or one operator) somewhere in e."""
+    def perturb(draw, e, want_ground=False):
+        """Change one numeral (or one operator) somewhere in e; with want_ground: replace a ground subterm by its
+        value under a wrong semantics (other truncation rule, or one operator confusion)."""
         from hypothesis import strategies as st2
         paths = []
 
@@ -971,8 +995,42 @@ def strategies():
         walk(e, ())
         if not paths:
             return e
-        p = draw(st2.sampled_from(paths))
+        ground = []
+
+        def walk2(x, p):
+            if isinstance(x, list) and x and isinstance(x[0], str):
+                if x[0] not in ('num', 'var', 'pi') and "'var'" not in str(x):
+                    ground.append(p)
+                for i, y in enumerate(x[1:], 1):
+                    walk2(y, p + (i,))
+        walk2(e, ())
         import json
+        if ground and want_ground:
+            # a ground subterm replaced by its value under a wrong semantics
+            p = draw(st2.sampled_from(ground))
+            e = json.loads(json.dumps(e))
+            cur = e
+            for i in p[:-1]:
+                cur = cur[i]
+            node = cur[p[-1]] if p else e
+            Te = build_type(node)
+            v = value_of(node)
+            cands = []
+            for confs in ((None,), CONFUSIONS):
+                for tr in (True, False):
+                    for c in confs:
+                        w = alt_value(node, tr, c)
+                        if w is not None and w != v and Te is not None and _clamp(Te, w) == w and w not in cands:
+                            cands.append(w)
+                if cands and draw(st2.booleans()):
+                    break          # half of the time: only the other truncation rule
+            if cands:
+                new = _num(Te, draw(st2.sampled_from(cands)))
+                if p:
+                    cur[p[-1]] = new
+                    return e
+                return new
+        p = draw(st2.sampled_from(paths))
         e = json.loads(json.dumps(e))
         cur = e
         for i in p[:-1]:
@@ -998,9 +1056,11 @@ def strategies():
         T = build_type(lhs) or 'real'
         rhs = rearrange(draw, lhs, [draw(st.integers(1, 8))])
         mode = draw(st.integers(0, 9))
-        if mode < 3:
+        if mode < 2:
             rhs = perturb(draw, rhs)
-        elif mode == 3:
+        elif mode < 4:
+            rhs = perturb(draw, rhs if draw(st.booleans()) else lhs, want_ground=True)
+        elif mode == 4:
             # ground constant on the right: the value under exact / float semantics
             v = value_of(lhs)
             if v is not None:
